@@ -286,6 +286,7 @@ def apply_writes(I, con, spec, views):
     for w in con.writes(spec, **views):
         if w[0] == "all":
             _, fname, pred = w
+            ctx.wrote(fname, pred=pred)
             old = ctx.field_array(fname)
             new = fresh("H_%s" % fname, old.sort())
             x = z3.Int("wx")
@@ -298,6 +299,7 @@ def apply_writes(I, con, spec, views):
         else:
             objv, fname = w
             idt = objv.id if hasattr(objv, "id") else Z.Val.id(_term(objv))
+            ctx.wrote(fname, idt)
             sort = ctx.field_array(fname).sort().range()
             ctx.heap[fname] = z3.Store(ctx.field_array(fname), idt, fresh("w_%s" % fname, sort))
 
